@@ -19,6 +19,13 @@ pub static CLOCK_S: AtomicI64 = AtomicI64::new(0);
 /// Every clock read advances simulated time by this many nanoseconds.
 static CLOCK_TICK_NS: AtomicU64 = AtomicU64::new(0);
 static SIM_PID: AtomicI64 = AtomicI64::new(4242);
+/// Simulated number of CPUs the process may run on (0 = pass through).
+static SIM_CPUS: AtomicU64 = AtomicU64::new(0);
+pub static AFFINITY_CALLS: AtomicU64 = AtomicU64::new(0);
+
+pub fn set_cpus(n: u32) {
+    SIM_CPUS.store(n as u64, Ordering::SeqCst);
+}
 
 pub fn activate(hash_seed: u64, clock_s: i64, pid: i64) {
     RNG_STATE.store(hash_seed, Ordering::SeqCst);
@@ -95,4 +102,35 @@ pub unsafe extern "C" fn getpid() -> libc::pid_t {
     }
     GETPID_CALLS.fetch_add(1, Ordering::SeqCst);
     SIM_PID.load(Ordering::SeqCst) as libc::pid_t
+}
+
+/// `std::thread::available_parallelism()` asks the scheduler which CPUs the process may use.
+/// # Safety
+/// libc ABI.
+#[no_mangle]
+pub unsafe extern "C" fn sched_getaffinity(pid: libc::pid_t, cpusetsize: libc::size_t, mask: *mut libc::cpu_set_t) -> libc::c_int {
+    let n = SIM_CPUS.load(Ordering::SeqCst) as usize;
+    if !ACTIVE.load(Ordering::SeqCst) || n == 0 || mask.is_null() {
+        let r = libc::syscall(libc::SYS_sched_getaffinity, pid, cpusetsize, mask);
+        if r < 0 {
+            return -1;
+        }
+        // the raw call returns the number of bytes written; the wrapper zeroes the rest
+        let bytes = mask as *mut u8;
+        let mut i = r as usize;
+        while i < cpusetsize {
+            *bytes.add(i) = 0;
+            i += 1;
+        }
+        return 0;
+    }
+    AFFINITY_CALLS.fetch_add(1, Ordering::SeqCst);
+    let bytes = mask as *mut u8;
+    for i in 0..cpusetsize {
+        *bytes.add(i) = 0;
+    }
+    for cpu in 0..n.min(cpusetsize * 8) {
+        *bytes.add(cpu / 8) |= 1 << (cpu % 8);
+    }
+    0
 }
